@@ -2,6 +2,7 @@ package main
 
 import (
 	"fmt"
+	"math"
 	"sort"
 	"strconv"
 	"strings"
@@ -351,6 +352,8 @@ var smContainer = container{
 			limit = rng.Range(4, 6)
 		} else if rng.Chance(1, 30) {
 			limit = -rng.Range(1, 3) // a negative limit is "reached" by every new topic
+		} else if rng.Chance(1, 40) { // the ends of the int range: never reached / always reached
+			limit = hx.Pick(rng, []int{math.MaxInt64, math.MaxInt64 - 1, math.MinInt64})
 		}
 		first := fmt.Sprintf("sm new %d opt %d %s", limit, rng.Intn(4), hx.Pick(rng, []string{"0", "0.5", "1"}))
 		if limit == 0 && rng.Chance(1, 3) {
